@@ -1,7 +1,8 @@
+import Gv.Oracle.Det
 import Gv.Oracle.Clean
 import Gv.Oracle.Stats
 import Gv.Oracle.Loop
 /-! oracle of property C14: only the handlers it needs -/
 open Gv Gv.Oracle
 
-def main : IO Unit := runOracle [CleanOps.handle, StatsOps.handle]
+def main : IO Unit := runOracle [CleanOps.handle, StatsOps.handle, DetOps.handle]
